@@ -179,7 +179,8 @@ func routingCase(t *T, params bool) {
 							t.Fail("wrong-priority", "Match(%q,%q): %d routes qualify, documented priority selects %s but %s was dispatched", method, path, nq, rdesc(tb, want), rdesc(tb, got))
 						}
 					}
-				} else if got >= 0 && got == want {
+				} else if got >= 0 {
+					// whichever route was selected (C01 judges the selection): its params must decompose the path
 					checkParams(t, tb, got, method, path, npath, copyParams(ps), rep > 0 && capacity >= 1, "Match", &probeLog)
 					if rep == 0 {
 						firstPs = copyParams(ps)
@@ -222,7 +223,7 @@ func routingCase(t *T, params bool) {
 					probeLog = append(probeLog, fmt.Sprintf("ServeHTTP %s %q", method, path))
 					t.Fail("servehttp-no-route-status", "ServeHTTP(%s %q): no route qualifies, expected the default 404, got status %d", method, path, rec.Status())
 				}
-			} else if got >= 0 && got == want {
+			} else if got >= 0 {
 				checkParams(t, tb, got, method, path, npath, rec.Params, false, "ServeHTTP handler", &probeLog)
 				// c.Param(name) view
 				vs, _ := tb.Routes[got].Pat.Vars()
@@ -290,7 +291,10 @@ func checkParams(t *T, tb *Table, idx int, method, path, npath string, ps map[st
 	}
 	ds, ok := pat.RefMatch(npath, 64)
 	if !ok {
-		return // not a C02 matter: C01 reports dispatch to a non-qualifying route
+		// the selected route's pattern does not match the path at all: whatever values are reported,
+		// substituting them back cannot reproduce the path (C01 reports the selection itself)
+		fail("params-do-not-reproduce-path", "reported {%s}, but the pattern has no decomposition of %q at all", fmtParams(ps), npath)
+		return
 	}
 	if len(ds) >= 64 {
 		t.Count("params.too_many_decompositions_skipped", 1)
